@@ -172,6 +172,12 @@ pub fn curated() -> Vec<(&'static str, Spec, bool)> {
     add("skip_la_end", true, vec![s("#[a-z]*$"), r("[a-z]+"), t("#").prio(1)]);
     add("skip_la_wb", true, vec![s(r" +(?-u:\b)"), r("[a-z]+"), t(" ").prio(1)]);
     add("skip_la_bytes", false, vec![s("//[^\n]*(?m:$)").greedy(), r("[a-z]+"), t("\n")]);
+    // a LATE-accepting state with an edge to itself (the self-loop byte satisfies the trailing
+    // look-ahead): the match end has to be recorded for every byte the unrolled loop consumes
+    add("late_selfloop", true, vec![r(r"a+(?-u:\B)"), r("[0-9]+")]);
+    add("late_selfloop2", true, vec![r(r"(?m)a\n*$"), r("[a-z]").prio(1)]);
+    add("late_selfloop3", false, vec![Pat::bregex(br"\$[a-z]*(?-u:\B)"), Pat::bregex(b"[ ,]")]);
+    add("late_selfloop_skip", true, vec![s(r"#+(?-u:\B)"), r("[a-z#]").prio(1)]);
     // byte classes that wrap around 0xff on two mutually linked loop states
     add("wrap_class_loops", false, vec![Pat::bregex(b"([^a-z]+|[a-z]+)+")]);
     add("wrap_class_loops2", false, vec![Pat::bregex(b"([\\x00-\\x10\\xFF]+|[a-z]+)+"), Pat::bregex(b"[\\x80-\\xfe]").prio(1)]);
